@@ -250,6 +250,69 @@ pub fn run(mut run: Run) -> i32 {
             });
         }
     }
+    // integer instantiations with large coordinates: a long diagonal a-c and a point b within a unit or two of it; all products fit i64 (and
+    // i32 for its twin), so the answers must be exact: b on / left of / right of the diagonal decided in i128
+    {
+        let w = run.ctx.pick(5, 9) as i64;
+        let n1 = (w * w) as usize;
+        run.stage("integer-large-near-collinear", n1 * n1 * 2, |idx, acc| {
+            let small = idx % 2 == 1; // i32 twin at 2^14
+            let k = idx / 2;
+            let (kc, kb) = ((k / n1) as i64, (k % n1) as i64);
+            let big: i64 = if small { 1 << 14 } else { 1 << 31 };
+            let (cx, cy) = (big + kc / w, big + kc % w);
+            let (bx, by) = (big / 2 + kb / w, big / 2 + kb % w);
+            let det = (cx as i128) * (by as i128) - (cy as i128) * (bx as i128);
+            let exp_tri = if det > 0 { CoordPos::Inside } else if det == 0 { CoordPos::OnBoundary } else { CoordPos::Outside };
+            acc.class(format!("int-large {} det{}", if small { "i32" } else { "i64" }, det.signum()));
+            macro_rules! go {
+                ($t:ty) => {{
+                    let (a, c, d, b) = (Coord::<$t> { x: 0, y: 0 }, Coord::<$t> { x: cx as $t, y: cy as $t }, Coord::<$t> { x: 0, y: cy as $t }, Coord::<$t> { x: bx as $t, y: by as $t });
+                    let line = geo::Line::new(a, c);
+                    let lst = geo::LineString::new(vec![a, c, Coord { x: cx as $t, y: 0 }]);
+                    let pg = geo::Polygon::new(geo::LineString::new(vec![a, c, d, a]), vec![]);
+                    let pg_rev = geo::Polygon::new(geo::LineString::new(vec![a, d, c, a]), vec![]);
+                    let (t1, t2) = (geo::Triangle(a, c, d), geo::Triangle(d, c, a));
+                    let pt = geo::Point(b);
+                    let on = det == 0;
+                    let mut res: Vec<(&str, String, String)> = vec![];
+                    let mut put = |name: &'static str, want: String, got: Result<String, String>| res.push((name, want, got.unwrap_or_else(|e| format!("panic:{}", e))));
+                    put("Line.intersects(Point)", on.to_string(), guard(|| line.intersects(&pt).to_string()));
+                    put("Point.intersects(Line)", on.to_string(), guard(|| pt.intersects(&line).to_string()));
+                    put("Line.contains(Point)", on.to_string(), guard(|| line.contains(&pt).to_string()));
+                    put("Line.intersects(Coord)", on.to_string(), guard(|| line.intersects(&b).to_string()));
+                    put("LineString.intersects(Point)", on.to_string(), guard(|| lst.intersects(&pt).to_string()));
+                    put("LineString.contains(Point)", on.to_string(), guard(|| lst.contains(&pt).to_string()));
+                    put("LineString.coordinate_position", format!("{:?}", if on { CoordPos::Inside } else { CoordPos::Outside }), guard(|| format!("{:?}", lst.coordinate_position(&b))));
+                    put("Line.coordinate_position", format!("{:?}", if on { CoordPos::Inside } else { CoordPos::Outside }), guard(|| format!("{:?}", line.coordinate_position(&b))));
+                    put("Polygon.coordinate_position", format!("{:?}", exp_tri), guard(|| format!("{:?}", pg.coordinate_position(&b))));
+                    put("Polygon(cw).coordinate_position", format!("{:?}", exp_tri), guard(|| format!("{:?}", pg_rev.coordinate_position(&b))));
+                    put("Triangle.coordinate_position", format!("{:?}", exp_tri), guard(|| format!("{:?}", t1.coordinate_position(&b))));
+                    put("Triangle(cw).coordinate_position", format!("{:?}", exp_tri), guard(|| format!("{:?}", t2.coordinate_position(&b))));
+                    put("Polygon.intersects(Point)", (det >= 0).to_string(), guard(|| pg.intersects(&pt).to_string()));
+                    put("Polygon.contains(Point)", (det > 0).to_string(), guard(|| pg.contains(&pt).to_string()));
+                    put("Point.is_within(Polygon)", (det > 0).to_string(), guard(|| pt.is_within(&pg).to_string()));
+                    put("Triangle.intersects(Point)", (det >= 0).to_string(), guard(|| t1.intersects(&pt).to_string()));
+                    put("Triangle(cw).intersects(Point)", (det >= 0).to_string(), guard(|| t2.intersects(&pt).to_string()));
+                    put("Triangle.contains(Point)", (det > 0).to_string(), guard(|| t1.contains(&pt).to_string()));
+                    put("Polygon.intersects(Line to b)", (det >= 0).to_string(), guard(|| pg.intersects(&geo::Line::new(b, Coord { x: cx as $t, y: 0 })).to_string()));
+                    acc.evals += res.len() as u64;
+                    for (name, want, got) in res {
+                        if want != got {
+                            acc.viol(format!("{}<{}> wrong for a point within two units of a long diagonal (products fit the type) expected={} got={}", name, stringify!($t), want, got), idx, || {
+                                json!({"a": [0, 0], "c": [cx, cy], "d": [0, cy], "b": [bx, by], "exact_determinant": det.to_string(), "expected": want, "got": got})
+                            });
+                        }
+                    }
+                }};
+            }
+            if small {
+                go!(i32);
+            } else {
+                go!(i64);
+            }
+        });
+    }
     if !run.ctx.quick() {
         let g4 = families(&super::c01::cfg_g4());
         let n4 = g4.len();
